@@ -1,3 +1,4 @@
+import TmcgProps.C04CutChoose
 import TmcgProofs.SigmaSound
 /-
   C04 — Soundness: proofs of false statements are rejected.
